@@ -40,8 +40,10 @@ impl Sub for AssertionBinding {
   fn check(&self, c: &AssertCase, cl: &mut Classes) -> Verdict {
     let mut s = c.tok.clone();
     let p = s.proto;
-    // tag non-empty assertions
-    if let Some(a) = &s.assertion {
+    // tag non-empty assertions (a JSON assertion for the respelling relation is left as it is: the tag is one of its values)
+    if let Related::JsonRespell(how) = &c.rel {
+      s.assertion = Some(format!("{{\"tenant\":{},\"user\":\"{}\",\"scopes\":[\"a\",\"b\"]}}", how, c.tag));
+    } else if let Some(a) = &s.assertion {
       if !a.is_empty() {
         s.assertion = Some(format!("{}{}", c.tag, a));
       }
@@ -155,6 +157,7 @@ fn case(proto: Proto, layer: Layer) -> BoxedStrategy<AssertCase> {
     2 => any::<u8>().prop_map(Related::LastByte),
     2 => prop_oneof![gen::jsonish(16), gen::unicode(6)].prop_map(Related::Other),
     3 => (any::<bool>(), any::<u8>()).prop_map(|(a, i)| Related::Decorate(a, i)),
+    2 => any::<u8>().prop_map(Related::JsonRespell),
   ];
   (tok_spec(proto, layer), "[A-Za-z0-9]{12}", rel, any::<u8>()).prop_map(|(tok, tag, rel, split)| AssertCase { tok, tag, rel, split }).boxed()
 }
